@@ -83,23 +83,250 @@ theorem cHi_pos : 0 < cHi := by
 theorem c314_pos : 0 < c314 := by
   unfold c314; exact Int.mul_pos (by decide) (Int.pow_pos (by decide))
 
+/-! ### floats with the two infinities (`XF`) -/
+
+theorem maxF_pos : 0 < maxF := by
+  unfold maxF; exact Int.mul_pos (by decide) (Int.pow_pos (by decide))
+
+/-- A 53-bit significand below the largest one with an exponent in range is below `maxF`. -/
+theorem lt_maxF {m : Int} {e : Nat} (_h0 : 0 ≤ m) (hm : m < 2 ^ 53 - 1) (he : e ≤ 2045) : m * 2 ^ e < maxF := by
+  have hA : (0 : Int) < 2 ^ e := Int.pow_pos (by decide)
+  have hB : (0 : Int) < 2 ^ (2045 - e) := Int.pow_pos (by decide)
+  have e1 : maxF = (2 ^ 53 - 1) * (2 ^ e * 2 ^ (2045 - e)) := by
+    unfold maxF; rw [← Int.pow_add]; congr 2; omega
+  rw [e1]
+  generalize (2 : Int) ^ e = A at *
+  generalize (2 : Int) ^ (2045 - e) = B at *
+  have h1 : m * A < (2 ^ 53 - 1) * A := Int.mul_lt_mul_of_pos_right hm hA
+  have h2 : (0 : Int) ≤ (2 ^ 53 - 1) * A := Int.mul_nonneg (by decide) (Int.le_of_lt hA)
+  have h3 : (2 ^ 53 - 1) * A * 1 ≤ (2 ^ 53 - 1) * A * B := Int.mul_le_mul_of_nonneg_left (by omega) h2
+  rw [Int.mul_one] at h3
+  rw [← Int.mul_assoc]
+  omega
+
+theorem cHi_lt_maxF : cHi < maxF := by
+  unfold cHi; exact lt_maxF (by decide) (by decide) (by decide)
+
+theorem cLo_gt_neg_maxF : -maxF < cLo := by
+  have : 4722366482869645 * 2 ^ (1074 - 72) < maxF := lt_maxF (by decide) (by decide) (by decide)
+  unfold cLo; omega
+
+namespace XF
+
+theorem le_refl (a : XF) : le a a = true := by
+  cases a with
+  | fin k => simp [le]
+  | inf n => cases n <;> simp [le]
+
+theorem le_trans {a b c : XF} (h1 : le a b = true) (h2 : le b c = true) : le a c = true := by
+  cases a with
+  | fin x => cases b with
+    | fin y => cases c with
+      | fin z => simp [le] at *; omega
+      | inf n => cases n <;> simp [le] at *
+    | inf m => cases m <;> cases c with
+      | fin z => simp [le] at *
+      | inf n => cases n <;> simp [le] at *
+  | inf l => cases l <;> cases b with
+    | fin y => cases c with
+      | fin z => simp [le] at *
+      | inf n => cases n <;> simp [le] at *
+    | inf m => cases m <;> cases c with
+      | fin z => simp [le] at *
+      | inf n => cases n <;> simp [le] at *
+
+theorem le_total (a b : XF) : le a b = true ∨ le b a = true := by
+  cases a with
+  | fin x => cases b with
+    | fin y => simp [le]; omega
+    | inf n => cases n <;> simp [le]
+  | inf m => cases m <;> cases b with
+    | fin y => simp [le]
+    | inf n => cases n <;> simp [le]
+
+theorem le_of_lt {a b : XF} (h : lt a b = true) : le a b = true := by
+  simp only [lt, Bool.not_eq_eq_eq_not, Bool.not_true] at h
+  rcases le_total a b with h' | h'
+  · exact h'
+  · rw [h] at h'; cases h'
+
+theorem le_of_not_lt {a b : XF} (h : lt a b = false) : le b a = true := by
+  simpa [lt] using h
+
+theorem min_le_left (a b : XF) : le (min a b) a = true := by
+  unfold min; split
+  · rename_i h; exact le_of_lt h
+  · exact le_refl a
+
+theorem min_le_right (a b : XF) : le (min a b) b = true := by
+  unfold min; split
+  · exact le_refl b
+  · rename_i h; exact le_of_not_lt (by simpa using h)
+
+theorem le_max_left (a b : XF) : le a (max a b) = true := by
+  unfold max; split
+  · rename_i h; exact le_of_lt h
+  · exact le_refl a
+
+theorem le_max_right (a b : XF) : le b (max a b) = true := by
+  unfold max; split
+  · exact le_refl b
+  · rename_i h; exact le_of_not_lt (by simpa using h)
+
+theorem lt_fin {a b : Int} : lt (.fin a) (.fin b) = decide (a < b) := by
+  simp only [lt, le]
+  by_cases h : a < b <;> simp [h] <;> omega
+
+theorem le_fin {a b : Int} : le (.fin a) (.fin b) = decide (a ≤ b) := by
+  simp [le]
+
+theorem lt_irrefl (a : XF) : lt a a = false := by simp [lt, le_refl]
+
+theorem lt_of_lt_of_le {a b c : XF} (h1 : lt a b = true) (h2 : le b c = true) : lt a c = true := by
+  cases hca : le c a with
+  | false => simp [lt, hca]
+  | true =>
+    have := le_trans h2 hca
+    simp [lt, this] at h1
+
+theorem lt_of_le_of_lt {a b c : XF} (h1 : le a b = true) (h2 : lt b c = true) : lt a c = true := by
+  cases hca : le c a with
+  | false => simp [lt, hca]
+  | true =>
+    have := le_trans hca h1
+    simp [lt, this] at h2
+
+/-- Both ends finite, or nothing strictly between them to draw: `random.uniform` is never called
+with an infinite end. -/
+def okPair (lo hi : XF) : Bool :=
+  !(lt lo hi) || match lo, hi with
+    | .fin _, .fin _ => true
+    | _, _ => false
+
+end XF
+
+/-- `math.nextafter(x, inf)` moves strictly upwards, except at `+inf`. -/
+theorem nextUpX_gt (x : XF) (h : x ≠ .inf false) : XF.lt x (nextUpX x) = true := by
+  cases x with
+  | fin k =>
+    simp only [nextUpX]
+    split
+    · simp [XF.lt, XF.le]
+    · have := nextUp_gt k
+      simp [XF.lt, XF.le]; omega
+  | inf n =>
+    cases n
+    · exact absurd rfl h
+    · simp [nextUpX, XF.lt, XF.le]
+
+theorem nextDownX_lt (x : XF) (h : x ≠ .inf true) : XF.lt (nextDownX x) x = true := by
+  cases x with
+  | fin k =>
+    have := nextUp_gt (-k)
+    by_cases hk : maxF ≤ -k
+    · simp [nextDownX, XF.neg, nextUpX, hk, XF.lt, XF.le]
+    · simp [nextDownX, XF.neg, nextUpX, hk, XF.lt, XF.le]; omega
+  | inf n =>
+    cases n
+    · simp [nextDownX, XF.neg, nextUpX, XF.lt, XF.le]
+    · exact absurd rfl h
+
+/-- Inside the finite range the extended `nextafter` is the finite one. -/
+theorem nextUpX_fin {k : Int} (h : k < maxF) : nextUpX (.fin k) = .fin (nextUp k) := by
+  simp only [nextUpX]; split
+  · omega
+  · rfl
+
+theorem nextDownX_fin {k : Int} (h : -maxF < k) : nextDownX (.fin k) = .fin (nextDown k) := by
+  have hk : ¬ maxF ≤ -k := by omega
+  simp [nextDownX, XF.neg, nextUpX, hk, nextDown]
+
+/-- At the largest double `math.nextafter` leaves the finite range. -/
+theorem nextUpX_maxF : nextUpX (.fin maxF) = .inf false := by simp [nextUpX]
+theorem nextDownX_neg_maxF : nextDownX (.fin (-maxF)) = .inf true := by simp [nextDownX, XF.neg, nextUpX]
+
 /-! ### the bounds `random_floats` / `random_ints` work with after the fixes -/
 
-/-- fixes/gen-float-defaults.diff: the derived bound never crosses the given one. -/
-theorem floatsFrom_ordered (lower upper : Option Int)
-    (h : ∀ l u, lower = some l → upper = some u → l ≤ u) :
-    ∃ lo hi, floatsFrom lower upper = .floats lo hi 0 ∧ lo ≤ hi
+/-- fixes/gen-float-defaults.diff + gen-float-overflow.diff: the derived bound never crosses the
+given one — at every magnitude, the infinities included. -/
+theorem floatsFrom_ordered (lower upper : Option XF)
+    (h : ∀ l u, lower = some l → upper = some u → XF.le l u = true) :
+    ∃ lo hi, floatsFrom lower upper = .floats lo hi 0 ∧ XF.le lo hi = true
       ∧ (∀ l, lower = some l → lo = l) ∧ (∀ u, upper = some u → hi = u) := by
-  have hlo := cLo_neg
-  have hhi := cHi_pos
   cases lower <;> cases upper <;> simp only [floatsFrom]
-  · exact ⟨_, _, rfl, by omega, by simp, by simp⟩
+  · exact ⟨_, _, rfl, XF.le_max_left _ _, by simp, by simp⟩
   · rename_i u
-    exact ⟨_, _, rfl, by omega, by simp, by simp⟩
+    exact ⟨_, _, rfl, XF.min_le_left _ _, by simp, by simp⟩
   · rename_i l
-    exact ⟨_, _, rfl, by omega, by simp, by simp⟩
+    exact ⟨_, _, rfl, XF.le_max_left _ _, by simp, by simp⟩
   · rename_i l u
     exact ⟨_, _, rfl, h l u rfl rfl, by simp, by simp⟩
+
+theorem min_fin_maxF (a : XF) (h : a ≠ .inf true) : ∃ k, XF.min a (.fin maxF) = .fin k := by
+  cases a with
+  | fin x => unfold XF.min; split <;> exact ⟨_, rfl⟩
+  | inf n =>
+    cases n
+    · exact ⟨maxF, by simp [XF.min, XF.lt, XF.le]⟩
+    · exact absurd rfl h
+
+theorem max_fin_neg_maxF (a : XF) (h : a ≠ .inf false) : ∃ k, XF.max a (.fin (-maxF)) = .fin k := by
+  cases a with
+  | fin x => unfold XF.max; split <;> exact ⟨_, rfl⟩
+  | inf n =>
+    cases n
+    · exact absurd rfl h
+    · exact ⟨-maxF, by simp [XF.max, XF.lt, XF.le]⟩
+
+theorem max_cHi_ne (a : XF) : XF.max (.fin cHi) a ≠ .inf true := by
+  cases a with
+  | fin x => unfold XF.max; split <;> simp
+  | inf n => cases n <;> simp [XF.max, XF.lt, XF.le]
+
+theorem min_cLo_ne (a : XF) : XF.min (.fin cLo) a ≠ .inf false := by
+  cases a with
+  | fin x => unfold XF.min; split <;> simp
+  | inf n => cases n <;> simp [XF.min, XF.lt, XF.le]
+
+/-- fixes/gen-float-overflow.diff: `random.uniform` is never asked for a draw with an infinite end:
+with one bound given, not `-inf` as a lower and not `+inf` as an upper bound (which is what the
+comparison clauses pass for a finite constant), the resolved bounds are both finite or equal. -/
+theorem floatsFrom_okPair (lower upper : Option XF)
+    (h0 : lower = Option.none ∨ upper = Option.none)
+    (hl : lower ≠ some (.inf true)) (hu : upper ≠ some (.inf false)) :
+    ∃ lo hi, floatsFrom lower upper = .floats lo hi 0 ∧ XF.okPair lo hi = true := by
+  cases lower with
+  | none =>
+    cases upper with
+    | none =>
+      obtain ⟨k, hk⟩ := min_fin_maxF (XF.max (.fin cHi) (XF.dbl (.fin cLo))) (max_cHi_ne _)
+      refine ⟨_, _, rfl, ?_⟩
+      simp only [hk]
+      unfold XF.max; split <;> simp [XF.okPair]
+    | some u =>
+      obtain ⟨k, hk⟩ := max_fin_neg_maxF (XF.min (.fin cLo) u.dbl) (min_cLo_ne _)
+      refine ⟨_, _, rfl, ?_⟩
+      simp only [hk]
+      cases u with
+      | fin x => unfold XF.min; split <;> simp [XF.okPair]
+      | inf n =>
+        cases n
+        · exact absurd rfl hu
+        · simp [XF.min, XF.lt, XF.le, XF.okPair]
+  | some l =>
+    cases upper with
+    | some u => rcases h0 with h0 | h0 <;> cases h0
+    | none =>
+      simp only [floatsFrom]
+      obtain ⟨k, hk⟩ := min_fin_maxF (XF.max (.fin cHi) l.dbl) (max_cHi_ne _)
+      refine ⟨_, _, rfl, ?_⟩
+      simp only [hk]
+      cases l with
+      | fin x => unfold XF.max; split <;> simp [XF.okPair]
+      | inf n =>
+        cases n
+        · simp [XF.max, XF.lt, XF.le, XF.okPair]
+        · exact absurd rfl hl
 
 /-- fixes/gen-int-windows.diff: the centre lies in `[lower, upper]`. -/
 theorem center_ge (lo hi : Option Int) (h : emptyRange lo hi = false) : ∀ l, lo = some l → l ≤ center lo hi := by
